@@ -41,7 +41,9 @@ def confirm(name):
                 dst = os.path.join(wt, rel)
                 os.makedirs(os.path.dirname(dst), exist_ok=True)
                 shutil.copyfile(os.path.join(root, f), dst)
-        cmd = meta["demo_cmd"].replace("/tmp/rt/%s" % meta["property"], wt)
+        cmd = meta["demo_cmd"]
+        for root in ("/tmp/rt3/", "/tmp/rt2/", "/tmp/rt/"):
+            cmd = cmd.replace(root + meta["property"], wt)
         rc0, out0 = sh("export GOFLAGS=-mod=mod GOPROXY=off GOSUMDB=off GOTOOLCHAIN=local; cd %s && %s" % (wt, cmd), env=GOENV)
         res["demo_without_patch_rc"] = rc0
         rc, out = sh(["git", "-C", wt, "apply", os.path.join(d, "patch.diff")])
@@ -116,6 +118,65 @@ def run(name, tier="quick", ids=None):
     return 0
 
 
+def run_isolated(name, tier="quick", ids=None):
+    """like run(), but in a private copy of /verif and a scratch worktree of /repo under /tmp/seedw (so that /repo and
+    /verif stay usable meanwhile); the copy and the worktree are kept for the next call, `seeded.py clean` removes them"""
+    d, meta = load(name)
+    ids = ids or [meta["property"]]
+    w = "/tmp/seedw"
+    repo, verif = os.path.join(w, "repo"), os.path.join(w, "verif")
+    os.makedirs(w, exist_ok=True)
+    if not os.path.exists(repo):
+        sh(["git", "-C", REPO, "worktree", "add", "-f", "--detach", repo, "HEAD"])
+    sh(["git", "-C", repo, "checkout", "--detach", sh(["git", "-C", REPO, "rev-parse", "HEAD"])[1].strip()])
+    sh(["git", "-C", repo, "checkout", "--", "."])
+    sh(["git", "-C", repo, "clean", "-fdq"])
+    sh(["rsync", "-a", "--delete", "--exclude", ".git", "--exclude", "replays", "--exclude", "mutants", "--exclude", "seeded", VERIF + "/", verif + "/"])
+    rc, out = sh(["git", "-C", repo, "apply", os.path.join(d, "patch.diff")])
+    if rc != 0:
+        print("patch does not apply: " + out)
+        return 2
+    results = {}
+    env = dict(GOENV, VERIF_REPO=repo)
+    try:
+        for pid in ids:
+            t0 = time.time()
+            rc, out = sh([os.path.join(verif, "check"), pid, tier], cwd=verif, env=env, timeout=7200)
+            lines = [l for l in out.split("\n") if l.startswith("VIOLATION") or l.startswith("OK ") or l.startswith("KNOWN-FINDING")]
+            detail = ""
+            for l in lines:
+                if l.startswith("VIOLATION") and "replay=" in l:
+                    path = l.split("replay=")[1].split()[0]
+                    try:
+                        hdr = [x for x in open(path, errors="replace").read().split("\n")[:14] if x.startswith("# detail=") or x.startswith("# broken") or x.startswith("# errors")]
+                        detail = " | ".join(hdr)[:500]
+                    except OSError:
+                        pass
+                    break
+            results[pid] = {"rc": rc, "lines": [l[:300] for l in lines if not l.startswith("KNOWN")], "detail": detail, "wall_s": round(time.time() - t0, 1),
+                            "caught": rc == 1, "concrete": any(l.startswith("VIOLATION") and "no-failing-input-found" not in l for l in lines)}
+            print(pid, tier, "rc=%d" % rc, "; ".join(results[pid]["lines"])[:400], detail[:300])
+    finally:
+        sh(["git", "-C", repo, "checkout", "--", "."])
+    p = os.path.join(d, "result.json")
+    old = json.load(open(p)) if os.path.exists(p) else {}
+    old.setdefault(tier, {}).update(results)
+    json.dump(old, open(p, "w"), indent=1)
+    return 0
+
+
+def imp(src, name):
+    """copy a red-team agent's out/ directory (patch.diff, demo/, meta.json) to seeded/<name>/"""
+    d = os.path.join(VERIF, "seeded", name)
+    os.makedirs(d, exist_ok=True)
+    shutil.copyfile(os.path.join(src, "patch.diff"), os.path.join(d, "patch.diff"))
+    shutil.copyfile(os.path.join(src, "meta.json"), os.path.join(d, "meta.json"))
+    shutil.rmtree(os.path.join(d, "demo"), ignore_errors=True)
+    shutil.copytree(os.path.join(src, "demo"), os.path.join(d, "demo"))
+    print("imported", name)
+    return 0
+
+
 def matrix():
     base = os.path.join(VERIF, "seeded")
     for name in sorted(os.listdir(base)):
@@ -139,5 +200,12 @@ if __name__ == "__main__":
         sys.exit(confirm(a[1]))
     if a[0] == "run":
         sys.exit(run(a[1], a[2] if len(a) > 2 else "quick", a[3].split(",") if len(a) > 3 else None))
+    if a[0] == "irun":
+        sys.exit(run_isolated(a[1], a[2] if len(a) > 2 else "quick", a[3].split(",") if len(a) > 3 else None))
+    if a[0] == "import":
+        sys.exit(imp(a[1], a[2]))
+    if a[0] == "clean":
+        sh(["git", "-C", REPO, "worktree", "remove", "--force", "/tmp/seedw/repo"])
+        shutil.rmtree("/tmp/seedw", ignore_errors=True)
     if a[0] == "matrix":
         matrix()
